@@ -2,7 +2,7 @@
    height, replayed in log order, give the "core" state; the entries above it are pure updates that can be
    applied in any order that keeps the order inside a height (in particular in LoadAllEntries' order). *)
 From Coq Require Import List NArith ZArith Bool Lia ZifyN ZifyBool.
-From V Require Import C12.Model C12.Proofs C13.Model C13.Proofs_Votes C13.Proofs_Commit C13.Proofs_Replay
+From V Require Import C12.Model C12.Proofs C13.Model C13.Proofs C13.Proofs_Votes C13.Proofs_Commit C13.Proofs_Replay C13.Proofs_Resume
   C13.Proofs_Obs C13.Proofs_ObsStep C13.Proofs_Cells C13.Proofs_Shape C13.Proofs_Wal C13.Proofs_Crash
   C13.Proofs_Fut C13.Proofs_Upd.
 Import ListNotations.
@@ -324,3 +324,159 @@ Section Core2.
     split; [rewrite L1; exact R1|]. intro k. rewrite L2. apply R2.
   Qed.
 End Core2.
+
+Lemma curs_above_g : forall H l, curs H (above_f H l) = curs H l.
+Proof. intros. unfold curs, above_f. apply filter_filter_imp. intros x Hx. lia. Qed.
+Lemma futs_above_g : forall H l, futs H (above_f H l) = futs H l.
+Proof. intros. unfold futs, above_f. apply filter_filter_imp. intros x Hx. lia. Qed.
+
+(* ---------- the calling discipline of a replay, at the level of the state machine ---------- *)
+Fixpoint sm_disc (E : env) (s : state) (n : N) (es : list entry) : bool :=
+  match es with
+  | [] => true
+  | e :: rest =>
+      if entry_height e <? s_h s then sm_disc E s n rest
+      else ok_input s (input_of_entry e) &&
+           (let '(s', n', _) := sm_step E s n (input_of_entry e) in sm_disc E s' n' rest)
+  end.
+
+Lemma replay_disc_sm : forall E es d, replay_disc E d es = sm_disc E (d_sm d) (d_calls d) es.
+Proof.
+  induction es as [|e rest IH]; intros d; cbn [replay_disc sm_disc]; [reflexivity|].
+  destruct (entry_height e <? s_h (d_sm d)); [apply IH|]. f_equal.
+  rewrite IH, dstep_spec. unfold sm_of. cbn [fst snd d_sm d_calls].
+  destruct (sm_step E (d_sm d) (d_calls d) (input_of_entry e)) as [[s' n'] acts]. reflexivity.
+Qed.
+
+Lemma sm_disc_app : forall E l1 l2 s n,
+  sm_disc E s n (l1 ++ l2) =
+  sm_disc E s n l1 && sm_disc E (fst (fst (sm_replay_acts E s n l1))) (snd (fst (sm_replay_acts E s n l1))) l2.
+Proof.
+  induction l1 as [|e l1 IH]; intros l2 s n; cbn [sm_disc sm_replay_acts app fst snd]; [reflexivity|].
+  destruct (entry_height e <? s_h s); [apply IH|].
+  destruct (sm_step E s n (input_of_entry e)) as [[s' n'] acts]. rewrite IH, andb_assoc.
+  destruct (sm_replay_acts E s' n' l1) as [[s2 n2] a2]. reflexivity.
+Qed.
+
+Lemma sm_disc_skip : forall E l1 l2 s n,
+  Forall (fun e => entry_height e < s_h s) l1 -> sm_disc E s n (l1 ++ l2) = sm_disc E s n l2.
+Proof.
+  induction l1 as [|e l1 IH]; intros l2 s n F; [reflexivity|]. inversion F as [|x y Hx Hy]. subst.
+  cbn [sm_disc app]. destruct (entry_height e <? s_h s) eqn:El; [apply IH; assumption|lia].
+Qed.
+
+Lemma sm_disc_msgs : forall E l s n, Forall (fun x => is_msg x = true) l -> sm_disc E s n l = true.
+Proof.
+  induction l as [|e l IH]; intros s n F; [reflexivity|]. inversion F as [|x y Mx My]. subst.
+  cbn [sm_disc]. destruct (entry_height e <? s_h s); [apply IH; exact My|].
+  assert (Ok : ok_input s (input_of_entry e) = true) by (destruct e; try discriminate; reflexivity).
+  rewrite Ok. destruct (sm_step E s n (input_of_entry e)) as [[s' n'] acts]. apply IH. exact My.
+Qed.
+
+Lemma sm_disc_det : forall E, value_deterministic E -> forall es s n m, sm_disc E s n es = sm_disc E s m es.
+Proof.
+  intros E H. induction es as [|e rest IH]; intros s n m; cbn [sm_disc]; [reflexivity|].
+  destruct (entry_height e <? s_h s); [apply IH|]. f_equal.
+  destruct (sm_step_det E H s n m (input_of_entry e)) as [A _].
+  destruct (sm_step E s n (input_of_entry e)) as [[s1 n1] a1], (sm_step E s m (input_of_entry e)) as [[s2 n2] a2].
+  cbn [fst] in A. subst s2. apply IH.
+Qed.
+
+Definition core_disc (E : env) (H : N) (A : list entry) : bool := sm_disc E (init_state H) 0 (curs H A).
+
+(* the discipline of the driver's replay of a log directory = the discipline of its core *)
+Lemma replay_disc_core : forall E, value_deterministic E -> forall H D n, 0 < H -> prunes_below H D ->
+  Forall (fun x => is_msg x = true) (futs H (rents D)) ->
+  replay_disc E (boot H D n) (load D) = core_disc E H (rents D).
+Proof.
+  intros E Hdet H D n HH P HM. rewrite replay_disc_sm. cbn [boot d_sm d_calls].
+  destruct (index_of_spec H D HH P) as [_ [I2 _]].
+  destruct (sorted_split H (load D)) as [l1 [E1 F1]]; [unfold load; apply sort_sorted|].
+  rewrite E1, sm_disc_skip by exact F1. unfold load. rewrite above_f_sort, I2.
+  assert (Hge : Forall (fun e => H <= ht e) (above_f H (rents D))).
+  { apply Forall_forall. intros x Hx. unfold above_f in Hx. apply filter_In in Hx. lia. }
+  rewrite (sort_split H _ Hge), curs_above_g, futs_above_g, sm_disc_app.
+  rewrite (sm_disc_msgs E (sort_h (futs H (rents D)))).
+  - rewrite andb_true_r. unfold core_disc. apply sm_disc_det. exact Hdet.
+  - apply Forall_forall. intros x Hx. apply (proj1 (sort_In _ _)) in Hx. rewrite Forall_forall in HM. auto.
+Qed.
+
+Section Core3.
+  Variable E : env.
+
+  Lemma sm_step_reset : forall s n i, has_commit (snd (sm_step E s n i)) = true ->
+    scal (fst (fst (sm_step E s n i))) = scal (init_state (s_h (fst (fst (sm_step E s n i))))).
+  Proof.
+    intros s n i. unfold sm_step. set (c := cfg_at E (s_h s) (in_round i) n).
+    rewrite (step_step_x c (set_nval s 0) i). pose proof (step_x_commit_state c (set_nval s 0) i) as Cs.
+    destruct (step_x c (set_nval s 0) i) as [[s1 acts] ex]. cbn [fst snd] in *. intro Hc. exact (Cs Hc).
+  Qed.
+
+  (* replaying entries of the machine's height: if it ends one height up, it is a freshly reset machine *)
+  Lemma replay_cur_reset : forall l s n H, WF s -> s_h s = H -> Forall (fun e => ht e = H) l ->
+    s_h (fst (fst (sm_replay_acts E s n l))) = H + 1 ->
+    scal (fst (fst (sm_replay_acts E s n l))) = scal (init_state (H + 1)).
+  Proof.
+    induction l as [|e l IH]; intros s n H W Sh HF; cbn [sm_replay_acts fst]; [lia|].
+    inversion HF as [|a b He HF']. subst. fold ht. destruct (ht e <? s_h s) eqn:El; [lia|].
+    assert (L : input_low s (input_of_entry e)).
+    { destruct e; simpl; auto; unfold ht in He; simpl in He; lia. }
+    destruct (sm_step_cells E s n (input_of_entry e) W L) as [W1 [_ [Hh _]]].
+    pose proof (sm_step_reset s n (input_of_entry e)) as Rs.
+    destruct (sm_step E s n (input_of_entry e)) as [[s1 n1] a1]. cbn [fst snd] in *.
+    unfold hbump in Hh. destruct (has_commit a1) eqn:Ec.
+    - assert (Sk : sm_replay_acts E s1 n1 l = sm_replay_acts E s1 n1 []).
+      { rewrite <- (app_nil_r l) at 1. apply sm_replay_acts_skip.
+        eapply Forall_impl; [|exact HF']. intros x Hx. simpl in Hx. fold ht. lia. }
+      rewrite Sk. cbn [sm_replay_acts fst snd]. intros _. rewrite (Rs eq_refl).
+      replace (s_h s1) with (s_h s + 1) by lia. reflexivity.
+    - assert (Sh1 : s_h s1 = s_h s) by lia. specialize (IH s1 n1 (s_h s) W1 Sh1 HF').
+      destruct (sm_replay_acts E s1 n1 l) as [[s2 n2] a2]. cbn [fst snd] in *. exact IH.
+  Qed.
+
+  Lemma core_reset : forall H A, s_h (fst (fst (core E H A))) = H + 1 ->
+    scal (fst (fst (core E H A))) = scal (init_state (H + 1)).
+  Proof.
+    intros H A. unfold core. apply replay_cur_reset; [reflexivity|reflexivity|].
+    apply Forall_forall. intros x Hx. unfold curs in Hx. apply filter_In in Hx. lia.
+  Qed.
+
+  (* under the discipline, every vote the core returns carries the core's height *)
+  Lemma replay_cur_votes : forall l s n H m, Rel (c0 E) s m -> s_h s = H -> Forall (fun e => ht e = H) l ->
+    sm_disc E s n l = true ->
+    forall k v, In v (votes_of k (snd (sm_replay_acts E s n l))) -> v_h v = H.
+  Proof.
+    induction l as [|e l IH]; intros s n H m R Sh HF D k v Hin; cbn [sm_replay_acts snd sm_disc] in *; [contradiction|].
+    inversion HF as [|a b He HF']. subst. fold ht in *. destruct (ht e <? s_h s) eqn:El; [lia|].
+    apply andb_prop in D. destruct D as [Hok D].
+    destruct (sm_step_sim E s n (input_of_entry e) m R Hok) as [m' [M R']].
+    pose proof (sm_step_col E s n (input_of_entry e)) as Col.
+    assert (W : WF s) by (unfold WF; apply (R_h _ _ _ R)).
+    assert (L : input_low s (input_of_entry e)).
+    { destruct e; simpl; auto; unfold ht in He; simpl in He; lia. }
+    destruct (sm_step_cells E s n (input_of_entry e) W L) as [_ [_ [Hh _]]].
+    assert (Hm : vc_h (m_vc m) = s_h s) by (rewrite (R_vc _ _ _ R); apply (R_h _ _ _ R)).
+    destruct (sm_step E s n (input_of_entry e)) as [[s1 n1] a1]. cbn [fst snd] in *.
+    unfold hbump in Hh. destruct (has_commit a1) eqn:Ec.
+    - assert (Sk : sm_replay_acts E s1 n1 l = sm_replay_acts E s1 n1 []).
+      { rewrite <- (app_nil_r l) at 1. apply sm_replay_acts_skip.
+        eapply Forall_impl; [|exact HF']. intros x Hx. simpl in Hx. fold ht. lia. }
+      rewrite Sk in Hin. cbn [sm_replay_acts snd] in Hin. rewrite app_nil_r in Hin.
+      rewrite (mon_actions_vote_h _ _ _ _ k v M Col Hin), mon_input_h. exact Hm.
+    - assert (Sh1 : s_h s1 = s_h s) by lia.
+      destruct (sm_replay_acts E s1 n1 l) as [[s2 n2] a2] eqn:ER. cbn [snd] in Hin.
+      rewrite votes_of_app in Hin. apply in_app_or in Hin. destruct Hin as [Hin|Hin].
+      + rewrite (mon_actions_vote_h _ _ _ _ k v M Col Hin), mon_input_h. exact Hm.
+      + rewrite <- Sh1. apply (IH s1 n1 (s_h s1) m' R' eq_refl ltac:(rewrite Sh1; exact HF') D k v).
+        rewrite ER. exact Hin.
+  Qed.
+
+  Lemma core_votes : forall H A, core_disc E H A = true ->
+    forall k v, In v (votes_of k (snd (core E H A))) -> v_h v = H.
+  Proof.
+    intros H A D k v Hin. unfold core, core_disc in *.
+    assert (HF : Forall (fun e => ht e = H) (curs H A)).
+    { apply Forall_forall. intros x Hx. unfold curs in Hx. apply filter_In in Hx. lia. }
+    exact (replay_cur_votes (curs H A) (init_state H) 0 H (mon_init H) (Rel_init _ H) eq_refl HF D k v Hin).
+  Qed.
+End Core3.
